@@ -599,6 +599,35 @@ var injectKinds = []*Kind{
 		p.W("\t}")
 		p.W("}()")
 	}},
+	{Name: "NLbl3", EventFirst: false, Print: func(p *Printer, s *Stmt) {
+		a := p.ID()
+		p.W("func() {")
+		p.W("L%d:", a)
+		p.W("\tfor i := 0; i < 3; i++ {")
+		p.W("\t\tfor j := 0; j < 2; j++ {")
+		p.W("\t\t\tif j == 1 {")
+		p.W("\t\t\t\tcontinue L%d", a)
+		p.W("\t\t\t}")
+		p.W("\t\t\tc.X(%d, i*10+j)", p.ID())
+		p.W("\t\t\tif i == 2 {")
+		p.W("\t\t\t\tbreak L%d", a)
+		p.W("\t\t\t}")
+		p.W("\t\t}")
+		p.W("\t}")
+		p.W("}()")
+	}},
+	// a closure capturing the loop variable of a three-clause loop inside a nested plain closure
+	{Name: "NLoopCapture", Print: func(p *Printer, s *Stmt) {
+		p.W("func() {")
+		p.W("\tvar fs []func() int")
+		p.W("\tfor i := 0; i < 3; i++ {")
+		p.W("\t\tfs = append(fs, func() int { return i })")
+		p.W("\t}")
+		p.W("\tfor _, f := range fs {")
+		p.W("\t\tc.X(%d, f())", p.ID())
+		p.W("\t}")
+		p.W("}()")
+	}},
 	{Name: "NSelect", Print: func(p *Printer, s *Stmt) {
 		p.W("func() {")
 		p.W("\tselect {")
@@ -652,7 +681,7 @@ func InjectStmts() []*Stmt {
 		{K: "XIfInitY", Ch: [][]*Stmt{{e}}}, {K: "XIfInitY", Ch: [][]*Stmt{{y}}},
 		{K: "XCloY"},
 		{K: "XElifInitY", Ch: [][]*Stmt{{e}}}, {K: "XElifInitY", Ch: [][]*Stmt{{y}}}, {K: "XElifInitY2", Ch: [][]*Stmt{{e}}}, {K: "XSwInitInElif", Ch: [][]*Stmt{{e}}},
-		{K: "NGoto"}, {K: "NLbl"}, {K: "NSelect"}, {K: "NDefer"}, {K: "NFall"}, {K: "NRangePtrArr"},
+		{K: "NGoto"}, {K: "NLbl"}, {K: "NLbl3"}, {K: "NLoopCapture"}, {K: "NSelect"}, {K: "NDefer"}, {K: "NFall"}, {K: "NRangePtrArr"},
 	}
 }
 
